@@ -43,6 +43,8 @@ class Conc(object):
     def path(self, u, k):
         # paths are free text, written and shown verbatim: legal spellings that are not normalised rotate in
         base = "%s/%s dir" % (self.uid(u), self.kind.get(k, k))
+        if self.rot % 7 == 5 and k in ("packages", "repository"):
+            return ""               # the blank path: the top directory itself (what "packagedir =" meant before productmd)
         return [base, base + "/", "./" + base, base.replace("/", "//", 1), "x/../" + base][self.rot % 5]
 
 
@@ -70,7 +72,7 @@ def build(obj, conc, foreign_owner=False):
         t.base_product.name, t.base_product.short, t.base_product.version = tx["bpname"], tx["bpshort"], tx["bpver"]
     arch = conc.binarch if sec["arch"] == "bin" else "src"
     t.tree.arch = arch
-    t.tree.build_timestamp = 1432300000 if sec["ts"] == "int" else 1432300000.75
+    t.tree.build_timestamp = {"int": 1432300000, "float": 1432300000.75, "neg": -1}[sec["ts"]]
     pl = {"p1": conc.p1, "p2": conc.p2}
     # the writer always lists the tree arch among the platforms; only image tables need it listed explicitly
     t.tree.platforms = set(pl[p] for p in sec["plats"]) | (set([arch]) if sec["imgs"] != "none" else set())
@@ -136,9 +138,9 @@ def render(x, conc, obj):
             import productmd.common
             return ".".join(str(i) for i in productmd.common.VERSION)
         if s == "$ts":
-            return "1432300000" if sec["ts"] == "int" else "1432300000.75"
+            return {"int": "1432300000", "float": "1432300000.75", "neg": "-1"}[sec["ts"]]
         if s == "$tsint":
-            return "1432300000"
+            return "-1" if sec["ts"] == "neg" else "1432300000"
         if s == "$relname $relver":
             return "%s %s" % (conc.text["relname"], conc.text["relver"])
         if s.startswith("$"):
